@@ -90,7 +90,14 @@ def judge(line, obs, orc):
         owing = False
         nrep = 0
         last_send = None
+        gone = False       # the only server closed and the socket has observed it: no peer is left
         for op, tk in po:
+            if op[0] == "send" and gone and not owing:
+                want = "s=err:ReturnToSender:" + op[1]
+                if tk != want:
+                    return "send on REQ with no peer left: %s (expected %s)" % (tk, want)
+                last_send = False
+                continue
             if op[0] == "send":
                 if owing:
                     want = "s=err:ReturnToSender:" + op[1]
@@ -123,6 +130,7 @@ def judge(line, obs, orc):
                     if not tk.startswith("r=err"):
                         return "REQ recv with a closed peer: %s" % tk
                     owing = False
+                    gone = True
     elif kind in ("p", "c"):
         cur = None      # connection whose request is being served
         names = sorted(set(op[1] for op, _ in po if op[0] == "attach"))
